@@ -224,3 +224,60 @@ func isFsmFunc(fn *ssa.Function) bool {
 	}
 	return false
 }
+
+// CompareHelper: the fsm function (pebble.Reader, []*regattapb.Compare) → (bool, error).
+func (a *FsmA) CompareHelper() *ssa.Function {
+	sp := a.w.SSAPkg(fsmRel)
+	if sp == nil {
+		return nil
+	}
+	var cmpFn *ssa.Function
+	for _, m := range sp.Members {
+		fn, ok := m.(*ssa.Function)
+		if !ok || len(fn.Params) != 2 {
+			continue
+		}
+		if !typeIs(fn.Params[0].Type(), pebblePath, "Reader") {
+			continue
+		}
+		if s, ok := fn.Params[1].Type().Underlying().(*types.Slice); ok && typeIs(s.Elem(), pbPkg, "Compare") {
+			cmpFn = fn
+		}
+	}
+	return cmpFn
+}
+
+// ROTxn: the function that evaluates a read-only transaction: Lookup itself, or the helper
+// (statically called from Lookup, outside the apply path) that calls the compare helper.
+func (a *FsmA) ROTxn() *ssa.Function {
+	cmpFn := a.CompareHelper()
+	if cmpFn == nil || a.Lookup == nil {
+		return a.Lookup
+	}
+	apply := a.applyReach()
+	seen := map[*ssa.Function]bool{}
+	var found *ssa.Function
+	var visit func(fn *ssa.Function, d int)
+	visit = func(fn *ssa.Function, d int) {
+		if fn == nil || fn.Blocks == nil || seen[fn] || d > 3 || apply[fn] || !inModule(fn) {
+			return
+		}
+		seen[fn] = true
+		eachInstr(fn, func(in ssa.Instruction) {
+			c := plainCall(in)
+			if c == nil {
+				return
+			}
+			cal := StaticCallee(c)
+			if cal == cmpFn && found == nil {
+				found = fn
+			}
+			visit(cal, d+1)
+		})
+	}
+	visit(a.Lookup, 0)
+	if found == nil {
+		return a.Lookup
+	}
+	return found
+}
